@@ -314,6 +314,7 @@ theorem closedExpr : ∀ e : Expr, wfExpr e = true → PE (segsExpr e)
     have h2 := PC.wrap h1 (closedExpr m h) (PC_raw kw_close)
     simpa [segsExpr, List.append_assoc] using h2.toPE
   | .labelsFp, _ => by simpa [segsExpr] using PE_raw kw_labelsFp
+  | .quantileAgg units scale col, h => by simpa [segsExpr] using PE_raw (by simpa [wfExpr] using h)
 theorem closedSels : ∀ ss : List Sel, wfSels ss = true → ∀ x ∈ segsSels ss, PE x
   | [], _ => by simp [segsSels]
   | s :: ss, h => by
